@@ -5,6 +5,7 @@ package main
 
 import (
 	"fmt"
+	"sort"
 	"go/ast"
 	"go/constant"
 	"go/token"
@@ -51,6 +52,17 @@ type Scope struct {
 	depth        int
 	qdepth       int
 	paramsFirst  bool
+	instTerms    []*Term // extra instantiation points for quantified hypotheses (loop variables in scope)
+	extraInst    []*Term // instantiation points chosen at discharge time (goal-directed)
+	nextLookup   func(name string) (SV, bool)
+	qrec         *qRecorder
+}
+
+// qRecorder notes, while a hypothesis is evaluated, which sequences are
+// indexed by a quantified variable (their base pointers).
+type qRecorder struct {
+	bases []*Term
+	quant bool
 }
 
 type specError struct{ msg string }
@@ -429,9 +441,15 @@ func (s *Scope) eval(ex ast.Expr) SV {
 						et = st.Elem()
 					}
 				}
+				if idx.bound && s.qrec != nil {
+					s.qrec.bases = append(s.qrec.bases, b.Ptr)
+				}
 				addr := tb.Add(b.Ptr, tb.Mul(idx, tb.ConstU(uint64(sizes.Sizeof(et)), 64)))
 				return e.svOf(e.load(s.mem, addr, et), et)
 			case StringV:
+				if idx.bound && s.qrec != nil {
+					s.qrec.bases = append(s.qrec.bases, b.Ptr)
+				}
 				return SV{k: kInt, t: e.mc.Read8(s.mem, tb.Add(b.Ptr, idx))}
 			case ArrayV:
 				if idx.IsConst() && idx.val.IsUint64() && idx.val.Uint64() < uint64(len(b.Elems)) {
@@ -830,6 +848,16 @@ func (s *Scope) evalCall(x *ast.CallExpr) SV {
 		}
 		r := c.eval(args[0])
 		return r
+	case "next":
+		need(1)
+		if s.nextLookup == nil {
+			s.fail("next() is only available in ghost update expressions")
+		}
+		c := *s
+		c.vars = map[string]SV{}
+		c.parent = nil
+		c.golookup = s.nextLookup
+		return c.eval(args[0])
 	case "atentry":
 		need(1)
 		if s.loopEntryMem == nil {
@@ -902,6 +930,9 @@ func (s *Scope) evalCall(x *ast.CallExpr) SV {
 		}
 		c := s.child()
 		c.goal = s.goal
+		c.instTerms = s.instTerms
+		c.extraInst = s.extraInst
+		c.qrec = s.qrec
 		if skolem {
 			c.qdepth = s.qdepth + 1
 		}
@@ -937,12 +968,33 @@ func (s *Scope) evalCall(x *ast.CallExpr) SV {
 				insts = append(insts, tb.And(r2, p2.t))
 			}
 		}
-		for c := 0; c <= 10; c++ {
-			instAt(tb.ConstU(uint64(c), 64))
+		if e.eagerConstInst {
+			for c := 0; c <= 10; c++ {
+				instAt(tb.ConstU(uint64(c), 64))
+			}
 		}
 		instAt(tb.Sub(hit, tb.ConstU(1, 64)))
+		if s.qrec != nil {
+			s.qrec.quant = true
+		}
+		for _, it := range s.extraInst {
+			instAt(it)
+		}
+		if s.qrec == nil && len(s.extraInst) == 0 {
+			// a universally quantified premise inside a goal: instantiate at
+			// the loop variables in scope right away
+			for _, it := range s.instTerms {
+				instAt(it)
+				instAt(tb.Sub(it, tb.ConstU(1, 64)))
+				instAt(tb.Add(it, tb.ConstU(1, 64)))
+			}
+		}
+
 		for _, sk := range e.skolemPool {
 			instAt(sk)
+			// re-based views of the same sequence (b[1:n] vs b) shift indices by one
+			instAt(tb.Sub(sk, tb.ConstU(1, 64)))
+			instAt(tb.Add(sk, tb.ConstU(1, 64)))
 		}
 		if univ {
 			return SV{k: kBool, t: tb.And(append([]*Term{tb.Forall([]*Term{kv}, body)}, insts...)...)}
@@ -1098,7 +1150,7 @@ func (s *Scope) evalCall(x *ast.CallExpr) SV {
 		if s.depth > 64 {
 			s.fail("spec recursion too deep (%s)", name)
 		}
-		c := &Scope{e: e, vars: map[string]SV{}, mem: s.mem, oldMem: s.oldMem, loopEntryMem: s.loopEntryMem, gh: s.gh, oldGh: s.oldGh, goal: s.goal, pkg: s.pkg, what: s.what + " / spec " + name, depth: s.depth + 1}
+		c := &Scope{e: e, vars: map[string]SV{}, mem: s.mem, oldMem: s.oldMem, loopEntryMem: s.loopEntryMem, gh: s.gh, oldGh: s.oldGh, goal: s.goal, pkg: s.pkg, what: s.what + " / spec " + name, depth: s.depth + 1, instTerms: s.instTerms, qdepth: s.qdepth, extraInst: s.extraInst, qrec: s.qrec}
 		for i, p := range sf.Params {
 			c.vars[p.Name] = s.coerceParam(s.eval(args[i]), p.Type, name+"."+p.Name)
 		}
@@ -1331,7 +1383,54 @@ func (e *Engine) bswap(x *Term) *Term {
 func (f *Frame) scopeAt(st *execState, over map[ssa.Value]Val) *Scope {
 	e := f.e
 	sc := &Scope{e: e, vars: map[string]SV{}, mem: st.mem, oldMem: f.entryMem, gh: st.gh, oldGh: f.entryGh, pkg: f.fn.Pkg.Pkg}
+	// loop variables (integer phis) currently in scope are natural
+	// instantiation points for quantified hypotheses
+	for _, vals := range f.names {
+		for _, c := range vals {
+			phi, ok := c.(*ssa.Phi)
+			if !ok || len(sc.instTerms) >= 8 {
+				continue
+			}
+			if v, ok := st.env[phi]; ok {
+				if sv, ok := v.(Scalar); ok && sv.T.sort == BV(64) && !sv.T.IsConst() {
+					dup := false
+					for _, t := range sc.instTerms {
+						if t == sv.T {
+							dup = true
+						}
+					}
+					if !dup {
+						sc.instTerms = append(sc.instTerms, sv.T)
+					}
+				}
+			}
+		}
+	}
+	sort.Slice(sc.instTerms, func(i, j int) bool { return sc.instTerms[i].id < sc.instTerms[j].id })
 	sc.golookup = func(name string) (SV, bool) {
+		if gv, ok := f.ghostVals[name]; ok {
+			return gv, true
+		}
+		if bv, ok := st.env[ghostKey{name}]; ok {
+			return e.svOf(bv, f.boundTypes[name]), true
+		}
+		if f.con != nil {
+			for _, ac := range f.con.Afters {
+				if ac.Name == name {
+					// the call was not made on this path: an arbitrary value
+					if fn := e.w.funcs[""]; fn == nil {
+						for _, cand := range e.w.funcs {
+							if cand.Name() == ac.Callee && cand.Pkg == f.fn.Pkg {
+								rs := cand.Signature.Results()
+								if ac.Result < rs.Len() {
+									return e.svOf(e.freshVal("unbound."+name, rs.At(ac.Result).Type(), nil), rs.At(ac.Result).Type()), true
+								}
+							}
+						}
+					}
+				}
+			}
+		}
 		// in postconditions a parameter name denotes the value passed in
 		if sc.paramsFirst {
 			for i, p := range f.fn.Params {
@@ -1424,4 +1523,140 @@ func (f *Frame) scopeAt(st *execState, over map[ssa.Value]Val) *Scope {
 		return e.svOf(st.env[found], found.Type()), true
 	}
 	return sc
+}
+
+// lazyHyp is a quantified hypothesis that can be re-instantiated at
+// goal-directed index terms when an obligation is discharged.
+type lazyHyp struct {
+	sc     Scope
+	expr   ast.Expr
+	text   string
+	guard  *Term // nil = unconditional
+	bases  []*Term
+	inst   []*Term // loop variables in scope when the hypothesis was assumed
+	before int     // index in e.assumes after which it is in force
+}
+
+// assumeClause evaluates a hypothesis clause, assumes it (under guard) and
+// registers it for goal-directed instantiation if it contains quantifiers.
+func (e *Engine) assumeClause(sc *Scope, ex ast.Expr, text string, guard *Term) {
+	rec := &qRecorder{}
+	sc.qrec = rec
+	sc.goal = false
+	t := e.evalBool(sc, ex, text)
+	sc.qrec = nil
+	if guard != nil {
+		t = e.tb.Implies(guard, t)
+	}
+	e.assume(t)
+	if rec.quant {
+		cp := *sc
+		e.lazy = append(e.lazy, &lazyHyp{sc: cp, expr: ex, text: text, guard: guard, bases: rec.bases, inst: sc.instTerms, before: len(e.assumes)})
+	}
+}
+
+// skolemReads collects the addresses of memory reads in ts that involve a
+// pool Skolem constant.
+func (e *Engine) skolemReads(ts []*Term) []*Term {
+	pool := map[*Term]bool{}
+	for _, s := range e.skolemPool {
+		pool[s] = true
+	}
+	seen := map[int]bool{}
+	var out, others []*Term
+	var walk func(t *Term)
+	walk = func(t *Term) {
+		if seen[t.id] {
+			return
+		}
+		seen[t.id] = true
+		if t.op == "select" && !t.bound {
+			a := t.args[1]
+			l := e.tb.toLin(a)
+			sk := false
+			for _, at := range l.atoms {
+				if pool[at] {
+					sk = true
+				}
+			}
+			if sk {
+				out = append(out, a)
+			} else {
+				others = append(others, a)
+			}
+		}
+		for _, a := range t.args {
+			walk(a)
+		}
+	}
+	for _, t := range ts {
+		walk(t)
+	}
+	// reads at Skolem indices first, then the other reads of the goal
+	_ = others
+	return out
+}
+
+// goalDirectedInstances re-instantiates the lazy hypotheses in force for an
+// obligation at the index terms that make their reads meet the goal's reads.
+func (e *Engine) goalDirectedInstances(o *Obligation, goalTerms []*Term) []*Term {
+	if len(e.lazy) == 0 {
+		return nil
+	}
+	reads := e.skolemReads(goalTerms)
+	if len(reads) > 12 {
+		reads = reads[:12]
+	}
+	var out []*Term
+	for _, lh := range e.lazy {
+		if lh.before > o.NAssume {
+			continue
+		}
+		var cands []*Term
+		seen := map[*Term]bool{}
+		for _, b := range lh.bases {
+			for _, a := range reads {
+				k := e.tb.Sub(a, b)
+				if !seen[k] && !k.IsConst() {
+					seen[k] = true
+					cands = append(cands, k)
+				}
+			}
+		}
+		for _, it := range lh.inst {
+			for _, k := range []*Term{it, e.tb.Sub(it, e.tb.ConstU(1, 64)), e.tb.Add(it, e.tb.ConstU(1, 64))} {
+				if !seen[k] {
+					seen[k] = true
+					cands = append(cands, k)
+				}
+			}
+		}
+		if len(cands) == 0 {
+			continue
+		}
+		if len(cands) > 48 {
+			cands = cands[:48]
+		}
+		func() {
+			defer func() {
+				if r := recover(); r != nil {
+					if _, ok := r.(specError); !ok {
+						panic(r)
+					}
+				}
+			}()
+			sc := lh.sc
+			sc.extraInst = cands
+			sc.goal = false
+			sc.qrec = nil
+			n := len(e.assumes)
+			t := e.evalBool(&sc, lh.expr, lh.text)
+			e.assumes = e.assumes[:n] // spec-call side assumptions are not needed twice
+			if lh.guard != nil {
+				t = e.tb.Implies(lh.guard, t)
+			}
+			out = append(out, t)
+		}()
+	}
+	return out
 }
